@@ -1419,6 +1419,22 @@ concat = cat
 concatenate = cat
 
 
+def hstack(tensors):
+    ts = list(tensors)
+    if not ts:
+        raise RuntimeError('hstack expects a non-empty TensorList')
+    ts = [t if t.a.ndim >= 1 else reshape(t, [1]) for t in ts]
+    return cat(ts, 0 if ts[0].a.ndim == 1 else 1)
+
+
+def vstack(tensors):
+    ts = list(tensors)
+    if not ts:
+        raise RuntimeError('vstack expects a non-empty TensorList')
+    ts = [t if t.a.ndim >= 2 else reshape(t, [1, -1]) for t in ts]
+    return cat(ts, 0)
+
+
 def stack(tensors, dim=0):
     tensors = list(tensors)
     try:
